@@ -421,13 +421,16 @@ ExecRun(out, more) ==
                                          \o (IF out = "exit" THEN <<Enq(InternalExited), DrainIt>>
                                                              ELSE <<Enq(Ev("stopped", "", 0)), DrainIt>>)
                               /\ UNCHANGED gen
-          [] how = "restart" -> /\ out = "stop" /\ more = 0
-                                /\ todo' = <<Resp(TRUE)>> \o StopReason("stop")
-                                /\ gen' = gen + 1
+          [] how = "restart" -> \* start_debugee_force: a started process is replaced and stops at its
+                                \* entry; a process that was never started just starts (like `start`)
+                                /\ IF dbg = "unloaded"
+                                     THEN out = (IF bpset THEN "stop" ELSE "exit") /\ more = left.pre /\ UNCHANGED gen
+                                     ELSE out = "stop" /\ more = 0 /\ gen' = gen + 1
+                                /\ todo' = <<Resp(TRUE)>> \o StopReason(out)
      /\ dbg' = IF out = "exit" THEN "exited" ELSE "stopped"
-     /\ phase' = IF how = "restart" THEN "pre" ELSE "post"
-     /\ bpset' = IF how = "restart" THEN FALSE ELSE bpset
-     /\ left' = IF how = "restart" THEN Full
+     /\ phase' = IF how = "restart" /\ dbg # "unloaded" THEN "pre" ELSE "post"
+     /\ bpset' = IF how = "restart" /\ dbg # "unloaded" THEN FALSE ELSE bpset
+     /\ left' = IF how = "restart" /\ dbg # "unloaded" THEN Full
                 ELSE IF n = left.pre + left.post THEN [pre |-> 0, post |-> 0]
                 ELSE IF n = 0 THEN left
                 ELSE [pre |-> 0, post |-> left.post]
